@@ -160,11 +160,11 @@ func sortedStrs(s []string) []string {
 type wrapperSpec struct {
 	rule      string
 	method    string
-	inner     string                 // method of *DDSketch
-	innerArgs []func(t *Term) bool   // predicates on the explicit arguments of the inner call
-	stat      string                 // method of *SummaryStatistics ("" = none)
-	statArgs  []func(t *Term) bool   // predicates on explicit args
-	skipOK    func(p *Path) bool     // success path may omit the statistics call
+	inner     string               // method of *DDSketch
+	innerArgs []func(t *Term) bool // predicates on the explicit arguments of the inner call
+	stat      string               // method of *SummaryStatistics ("" = none)
+	statArgs  []func(t *Term) bool // predicates on explicit args
+	skipOK    func(p *Path) bool   // success path may omit the statistics call
 	skipWhy   string
 	domain    *Domain
 }
